@@ -52,6 +52,8 @@ def commitRule : List LStep → Nat → Option (Nat × String)
       if s.post.view.dead ∨ ¬ isLeading s.post then none
       else if isLeading s.pre ∧ s.post.view.vol.commit < s.pre.view.vol.commit then some "commit-index-decreased"
       else if s.post.view.vol.commit > lastIndex s.post.view.vol then some "commit-index-beyond-last-index"
+      else if s.post.view.writes.any (fun w => w.1 == "SG" && decide (w.2.1 > s.post.view.vol.commit)) then
+        some "staged-commit-index-beyond-the-commit-index"
       else match s.post.dump with
         | none => none
         | some d =>
@@ -98,6 +100,20 @@ def oneChangeAtATime : List LStep → Bool → Nat → Option (Nat × String)
       else if voterDelta s.post.view.vol.latest s.post.view.vol.committed > 1 then some (k, "configurations-more-than-one-voter-apart")
       else oneChangeAtATime rest armed' (k + 1)
     else oneChangeAtATime rest armed' (k + 1)
+
+/-- a membership call that names a stale prevIndex and is served at once (the gate is open) is
+    refused and leaves the configuration alone -/
+def stalePrevRefused : List LStep → Nat → Option (Nat × String)
+  | [], _ => none
+  | s :: rest, k =>
+    let bad : Bool := match s.ev, s.pre.dump with
+      | .calls [(id, .change ch)] _, some d =>
+        let v := s.pre.view.vol
+        decide (v.latestIdx = v.committedIdx ∧ v.commit ≥ d.start ∧ ch.prevIndex > 0 ∧ ch.prevIndex ≠ v.latestIdx) &&
+          !s.post.view.dead &&
+          (decide (s.post.view.vol.latestIdx ≠ v.latestIdx) || !(s.post.outcomes.any (fun o => o.1 = id ∧ o.2 = .refused)))
+      | _, _ => false
+    if bad then some (k, "membership-change-with-a-stale-previndex-took-effect") else stalePrevRefused rest (k + 1)
 
 /-! ## C08 -/
 
@@ -208,6 +224,21 @@ def requestsFromLog : List LStep → Nat → Option (Nat × String)
     if isLeading s.post ∧ ¬ s.post.view.dead ∧ s.post.pending.any (fun p => !requestOK s.post.view p.2) then
       some (k, "replication-request-not-built-from-the-leaders-log")
     else requestsFromLog rest (k + 1)
+
+/-- C01: a server sends AppendEntries for a term only as the leader of that term: every request of
+    its replication routines, also one built after the leadership has ended but before the routine
+    has noticed, carries the term the server led — never the term it has moved on to -/
+def requestsSpeakForLedTerm : List LStep → Option Nat → Nat → Option (Nat × String)
+  | [], _, _ => none
+  | s :: rest, led, k =>
+    let led' : Option Nat := match s.ev with
+      | .start => if isLeading s.post then some s.post.view.vol.term else led
+      | _ => led
+    match led' with
+    | some t =>
+      if s.post.pending.any (fun p => p.2.term ≠ t) then some (k, "replication-request-for-a-term-this-server-does-not-lead")
+      else requestsSpeakForLedTerm rest led' (k + 1)
+    | none => requestsSpeakForLedTerm rest led' (k + 1)
 
 /-! ## C09 -/
 
